@@ -7,6 +7,8 @@ domain operations and the reference is left unchanged by each reshaping operatio
 sequence is the invariant rule itself - no bound on the length of the history.
 """
 from pyvc.spec import *
+import contracts._weaver_rt as WRT
+import contracts._c02_rt as C02RT      # run-time-only readings used by `assumed=` (bounded) clauses
 
 W = 'traffic_weaver.weaver.Weaver'
 
@@ -578,6 +580,215 @@ def normalize_x_entry(self, min_val, max_val):
 @hint(W + '.normalize_y', when='entry')
 def normalize_y_entry(self, min_val, max_val):
     return MINMAX_EXT_IMP(self.y, self.reference_y, len(self.y))
+
+
+# ------------------------------------------------------------------------ recreate_from_average / integral_match (C02)
+
+def grid_rel(x0, n, x1):
+    """x1 is the n-fold grid over x0: every n-th abscissa is an original one (bit for bit), linear spacing in between"""
+    return (len(x1) == (len(x0) - 1) * n + 1
+            and forall(range(len(x0)), lambda k: x1[k * n] == x0[k])
+            and forall(range(len(x0) - 1), lambda k: forall(range(n), lambda j: eq(x1[k * n + j], x0[k] + j * (x0[k + 1] - x0[k]) / n))))
+
+
+contract(W + '.recreate_from_average', params=dict(self=Obj(W), n=Int, rfa_class=Class('traffic_weaver.rfa.AbstractRFA'), kwargs=Kwargs),
+         modifies=['self'], no_rt=True)
+
+
+@requires(W + '.recreate_from_average')
+def rfa_w_pre(self, n, rfa_class, kwargs):
+    return len(self.x) >= 2
+
+
+@raises(W + '.recreate_from_average', 'ValueError')
+def rfa_w_small_n(self, n, rfa_class, kwargs):
+    return n < 2
+
+
+@ensures(W + '.recreate_from_average')
+def rfa_w_post(self, n, rfa_class, kwargs, result):
+    """C02/C04 at the Weaver: the processed series becomes the n-fold grid over the previous one; reference and original
+    are untouched (they are what integral_match matches against)"""
+    return (grid_rel(self.x, n, now(self).x) and len(now(self).y) == len(now(self).x)
+            and same(now(self).reference_x, self.reference_x) and same(now(self).reference_y, self.reference_y) and orig_same(self, now(self)))
+
+
+contract(W + '.integral_match', params=dict(self=Obj(W), target_function_integral_method=Str, reference_function_integral_method=Str,
+                                            kwargs=Kwargs), modifies=['self'], no_rt=True)
+
+
+@requires(W + '.integral_match')
+def im_w_pre(self, target_function_integral_method, reference_function_integral_method, kwargs):
+    """the selected fixed points are distinct and leave an interior sample (true after recreate_from_average with n >= 2)"""
+    return (len(self.x) >= 2 and forall(range(len(self.reference_x) - 1), lambda j:
+                                         nearest(self.x, self.reference_x[j + 1], 'closest') - nearest(self.x, self.reference_x[j], 'closest') >= 2))
+
+
+@raises(W + '.integral_match', 'ValueError')
+def im_w_rejected(self, target_function_integral_method, reference_function_integral_method, kwargs):
+    return (not (reference_function_integral_method == 'trapezoid' or reference_function_integral_method == 'rectangle')
+            or (not (target_function_integral_method == 'trapezoid' or target_function_integral_method == 'rectangle')
+                and len(self.reference_x) >= 2))
+
+
+def rule_term_w(x, r, i, method):
+    return ((r[i] + r[i + 1]) / 2 * (x[i + 1] - x[i])) if method == 'trapezoid' else (r[i] * (x[i + 1] - x[i]))
+
+
+@ensures(W + '.integral_match')
+def im_w_post(self, target_function_integral_method, reference_function_integral_method, kwargs, result):
+    """C02 (matching step): over every reference interval the new values integrate (target rule) to the reference integral"""
+    return (work_x_same(self, now(self)) and len(now(self).y) == len(self.y)
+            and same(now(self).reference_x, self.reference_x) and same(now(self).reference_y, self.reference_y) and orig_same(self, now(self))
+            and forall(range(len(self.reference_x) - 1), lambda j:
+                       eq(sum_range(nearest(self.x, self.reference_x[j], 'closest'), nearest(self.x, self.reference_x[j + 1], 'closest'),
+                                    lambda i: rule_term_w(self.x, now(self).y, i, target_function_integral_method)),
+                          rule_term_w(self.reference_x, self.reference_y, j, reference_function_integral_method))))
+
+
+# ---- C02: composition of the three contracts (Weaver.__init__: reference = original; recreate_from_average: n-fold grid over
+# the reference abscissae; integral_match: every reference interval integrates to the reference integral).  The lemma's
+# hypotheses are literally the postconditions of the two calls; its conclusion is the property.
+
+C02L = 'lemma:weaver.recreate_then_match_preserves_averages'
+contract(C02L, params=dict(x0=Seq(Real), y0=Seq(Real), n=Int, x1=Seq(Real), y2=Seq(Real), target=Str), lemma=True, no_rt=True)
+
+
+@requires(C02L)
+def c02_pre(x0, y0, n, x1, y2, target):
+    return (len(x0) >= 2 and len(y0) == len(x0) and strictly_increasing(x0) and n >= 2
+            # postcondition of recreate_from_average (the reference is the original series)
+            and grid_rel(x0, n, x1) and strictly_increasing(x1) and len(y2) == len(x1)
+            and (target == 'trapezoid' or target == 'rectangle')
+            # postcondition of integral_match against the piecewise-constant reference
+            and forall(range(len(x0) - 1), lambda j:
+                       eq(sum_range(nearest(x1, x0[j], 'closest'), nearest(x1, x0[j + 1], 'closest'), lambda i: rule_term_w(x1, y2, i, target)),
+                          rule_term_w(x0, y0, j, 'rectangle'))))
+
+
+@hint(C02L, when='entry')
+def c02_h_fixed(x0, y0, n, x1, y2, target):
+    """the sample closest to an original abscissa is the grid sample that equals it bit for bit"""
+    return forall(range(len(x0)), lambda k: nearest(x1, x0[k], 'closest') == k * n)
+
+
+@ensures(C02L)
+def c02_match_applicable(x0, y0, n, x1, y2, target):
+    """the precondition of integral_match holds after recreate_from_average (fixed points n >= 2 samples apart)"""
+    return forall(range(len(x0) - 1), lambda j: nearest(x1, x0[j + 1], 'closest') - nearest(x1, x0[j], 'closest') >= 2)
+
+
+@ensures(C02L)
+def c02_interval_means(x0, y0, n, x1, y2, target):
+    """C02: over every original interval the matched series integrates (target rule) to average * width, i.e. its mean over
+    the interval equals the original average"""
+    return forall(range(len(x0) - 1), lambda k:
+                  eq(sum_range(k * n, (k + 1) * n, lambda i: rule_term_w(x1, y2, i, target)), y0[k] * (x0[k + 1] - x0[k])))
+
+
+C02B = 'lemma:weaver.block_average_returns_original'
+contract(C02B, params=dict(x0=Seq(Real), y0=Seq(Real), n=Int, x1=Seq(Real), y2=Seq(Real), k=Int), lemma=True, no_rt=True,
+         lemmas=['SUM_SCALE'])
+
+
+@requires(C02B)
+def c02b_pre(x0, y0, n, x1, y2, k):
+    return (len(x0) >= 2 and len(y0) == len(x0) and strictly_increasing(x0) and n >= 2 and grid_rel(x0, n, x1) and len(y2) == len(x1)
+            and 0 <= k and k < len(x0) - 1
+            # conclusion of the previous lemma for the rectangle target rule
+            and eq(sum_range(k * n, (k + 1) * n, lambda i: rule_term_w(x1, y2, i, 'rectangle')), y0[k] * (x0[k + 1] - x0[k])))
+
+
+@hint(C02B, when='entry')
+def c02b_h_last_step(x0, y0, n, x1, y2, k):
+    return x1[(k + 1) * n] == x0[k + 1] and x1[k * n + (n - 1)] == x0[k] + (n - 1) * (x0[k + 1] - x0[k]) / n
+
+
+@hint(C02B, when='entry')
+def c02b_h_steps(x0, y0, n, x1, y2, k):
+    """inside an original interval all steps of the grid are equal: width / n"""
+    return forall(range(n), lambda j: x1[k * n + j + 1] - x1[k * n + j] == (x0[k + 1] - x0[k]) / n)
+
+
+@hint(C02B, when='entry')
+def c02b_h_terms(x0, y0, n, x1, y2, k):
+    return forall(range(k * n, (k + 1) * n), lambda i: rule_term_w(x1, y2, i, 'rectangle') == ((x0[k + 1] - x0[k]) / n) * y2[i])
+
+
+@hint(C02B, when='entry')
+def c02b_h_scale(x0, y0, n, x1, y2, k):
+    return SUM_SCALE(seq_of(len(x1) - 1, lambda i: y2[i]), seq_of(len(x1) - 1, lambda i: rule_term_w(x1, y2, i, 'rectangle')),
+                     (x0[k + 1] - x0[k]) / n, k * n, (k + 1) * n)
+
+
+@ensures(C02B)
+def c02b_block_mean(x0, y0, n, x1, y2, k):
+    """C02 (rectangle rule): the mean of the n samples of block k is the original average, and the block starts at the
+    original abscissa bit for bit - what process.average(x, y, n) returns (C17: block mean, first abscissa of each row)"""
+    return eq(sum_range(k * n, (k + 1) * n, lambda i: y2[i]) / n, y0[k]) and x1[k * n] == x0[k]
+
+
+# ---- bounded end-to-end monitor of C02 on the real code (all six strategies, both target rules, periodic extension, bundled data)
+
+PIPE = 'rt:weaver.pipeline'
+contract(PIPE, params=dict(x=Seq(Real, kind='list'), y=Seq(Real, kind='list'), n=Int, strategy=Str, kw=Any, target=Str, periodic=Bool),
+         rt_target='contracts._c02_rt.pipeline', rt_only=True, generator='gen_pipeline', no_frame=True)
+
+
+@ensures(PIPE, assumed='bounded: run-time monitoring of the whole pipeline on generated inputs only')
+def pipe_means(x, y, n, strategy, kw, target, periodic, result):
+    return C02RT.means_preserved(n, target, result)
+
+
+def gen_pipeline(rnd):
+    return C02RT.gen_pipeline(rnd)
+
+
+# ------------------------------------------------------------------------ to_function / smooth (C16)
+
+def same_seq_w(a, b):
+    return len(a) == len(b) and forall(range(len(a)), lambda i: a[i] == b[i])
+
+
+contract(W + '.to_function', params=dict(self=Obj(W), s=Opt(Real)), returns=Obj('ext:spline'))
+
+
+@requires(W + '.to_function')
+def to_function_pre(self, s):
+    return len(self.x) >= 5 and (True if s is None else s >= 0)
+
+
+@ensures(W + '.to_function', static_only=True)
+def to_function_current(self, s, result):
+    """C16: the spline is fitted to the CURRENT processed series (what get() returns) with exactly the given s; with s = 0 it
+    passes through every sample (assumed FITPACK contract, carried by spline_smooth's contract)"""
+    return (same_seq_w(result.src_x, self.x) and same_seq_w(result.src_y, self.y)
+            and implies(s is not None and s == 0, forall(range(len(self.x)), lambda k: result.fn(self.x[k]) == self.y[k])))
+
+
+@ensures(W + '.to_function', assumed='bounded: run-time monitoring over generated operation histories only')
+def to_function_rt(self, s, result):
+    return WRT.spline_consistent(self, s, result)
+
+
+contract(W + '.smooth', params=dict(self=Obj(W), s=Opt(Real)), modifies=['self'])
+
+
+@requires(W + '.smooth')
+def smooth_w_pre(self, s):
+    return len(self.x) >= 5 and (True if s is None else s >= 0)
+
+
+@ensures(W + '.smooth')
+def smooth_w_post(self, s, result):
+    """C16: smoothing keeps x and the length and leaves reference and original alone"""
+    return (work_x_same(self, now(self)) and len(now(self).y) == len(self.y)
+            and same(now(self).reference_x, self.reference_x) and same(now(self).reference_y, self.reference_y) and orig_same(self, now(self)))
+
+
+@ensures(W + '.smooth', assumed='bounded: run-time monitoring over generated operation histories only')
+def smooth_w_rt(self, s, result):
+    return WRT.smooth_condition(self, now(self), s)
 
 
 # ------------------------------------------------------------------ run-time generators (bounded stand-in only)
